@@ -15,6 +15,12 @@ Every `probe(e, id)` is the identity at run time; the check replaces `probe` by 
 All random choices come from one random.Random(seed).
 """
 from __future__ import annotations
+import os as _os
+
+# fences for two findings that are repaired in the tree (fix: 77e1094, 8965be9); kept switchable for trials
+FENCE_TYPE_IS = _os.environ.get("VERIF_C01_FENCE_TYPE_IS", "0") == "1"
+FENCE_LIT_TUPLE = _os.environ.get("VERIF_C01_FENCE_LIT_TUPLE", "0") == "1"
+
 
 import ast
 import random
@@ -434,7 +440,7 @@ class World:
             return ("dict", r.choice([INT, STR]), self.rand_type(depth - 1))
         if x < 0.78:
             t = ("tuple", tuple(self.rand_type(depth - 1) for _ in range(r.choice([1, 2, 2, 3]))))
-            if "Literal[" in render(t):
+            if FENCE_LIT_TUPLE and "Literal[" in render(t):
                 # fenced off: a tuple-typed variable whose items are Literal types keeps a stale narrowed type after
                 # `v = generic_call((2, 3))` (binder.assign_type erases last known values, finds the value incompatible
                 # and returns early) -- known finding with its own witness replay; its downstream effects are unbounded
@@ -1496,7 +1502,7 @@ class CondGen(ExprGen):
             cands = self.test_classes(cur)
             if not cands:
                 return None
-            if o == "typeis" and not all(m[0] in ("cls", "none", "list", "dict", "tuple", "set", "box", "call") for m in ms):
+            if FENCE_TYPE_IS and o == "typeis" and not all(m[0] in ("cls", "none", "list", "dict", "tuple", "set", "box", "call") for m in ms):
                 # fenced off: mypy's exact-match rule for `type(x) is C` treats literal types (declared, or produced
                 # internally by truthiness/equality narrowing of int/str/bool/enum) as never matching (known finding,
                 # witness replay kept); its downstream effects have no bounded set of signatures
